@@ -68,14 +68,15 @@ theorem new_path {α} [Inhabited α] (parent : List α) (v : View) (hinv : Inv v
       simp only [seqRoundtripNew, hps, toRich_seq, toRich_step, htl, mk_none_full _ _ hpos,
         getitem_full_rev _ _ _ hpos hc]
 
-/-- new `Sequence.copy(sliced=True)` when the view carries no offset of its own -/
+/-- new `Sequence.copy(sliced=True)`: same function as the old path (the view copy drops the offset,
+the Sequence re-attaches `parent_start`) -/
 theorem copy_new_path {α} [Inhabited α] (parent : List α) (v : View) (hinv : Inv v)
-    (hlen : v.seqLen = parent.length) (hoff : v.offset = 0) :
+    (hlen : v.seqLen = parent.length) :
     ∃ r, seqCopyNew parent v = .ok r ∧ RebaseOK parent v r := by
   obtain ⟨r, hr, hok⟩ := old_path parent v hinv hlen
   refine ⟨r, ?_, hok⟩
   rw [← hr]
-  simp only [seqCopyNew, viewCopyNew, seqRoundtripOld, fromRich, toRich_offset, Option.getD_none, hoff,
+  simp only [seqCopyNew, viewCopyNew, seqRoundtripOld, fromRich, toRich_offset, Option.getD_none,
     toRich_step]
 
 /-- `SeqDataView.to_rich_dict` is right when the view is an unsliced forward prefix -/
